@@ -207,6 +207,9 @@ class skyline_lu {
                 backend::bytes(U) +
                 backend::bytes(D);
         }
+#ifdef AMGCL_VERIF
+    friend struct ::amgcl::verif::access;
+#endif
     private:
         int n;
         std::vector<int> perm;
